@@ -484,6 +484,7 @@ def shards(tier, seed):
     for i in range(0, len(vals), chunk):
         out.append({'kind': 'from_float', 'n': n, 'i0': i, 'i1': min(len(vals), i + chunk)})
     out.append({'kind': 'from_float_big'})
+    out.append({'kind': 'from_float_near'})
     out.append({'kind': 'ctor'})
     out.append({'kind': 'typed'})
     for t in _BOXTYPES:
@@ -570,6 +571,23 @@ def run_shard(shard, tier, seed):
                 check_from_float(res, (v, v + w, -0.5, 0.5))
                 check_from_float(res, (0.25, 0.75, v, v + w))
         res.sample({'op': 'from_float', 'rect': [vs[0], vs[0] + 0.5, -0.5, 0.5]})
+    elif k == 'from_float_near':
+        # limits a hair (2^-42 ... 2^-20 pixel) beside a pixel edge, a pixel centre and a quarter: exactly representable, so the
+        # smallest covering box is unambiguous -- a limit just beyond an edge still touches the next pixel
+        bases = [-2.5, -0.5, 0.5, 3.5, 0.0, 1.0, -3.0, 0.25]
+        epss = [0.0] + [sg * 2.0 ** -k for k in (42, 36, 30, 20) for sg in (1.0, -1.0)]
+        for lo_b in bases:
+            for e1 in epss:
+                for w in (0.0, 2.0, 2.5):
+                    for e2 in epss:
+                        lo, hi = lo_b + e1, lo_b + w + e2
+                        if hi < lo:
+                            continue
+                        res.states += 1
+                        res.evaluations += 2
+                        check_from_float(res, (lo, hi, -0.5, 0.5))
+                        check_from_float(res, (0.25, 0.75, lo, hi))
+        res.sample({'op': 'from_float', 'rect': [0.5 - 2.0 ** -42, 2.5 + 2.0 ** -42, -0.5, 0.5]})
     elif k == 'ctor':
         for idx in range(len(_BAD_CTOR)):
             res.states += 1
